@@ -137,7 +137,7 @@ PROPS.update({
     "C04": mk("C04", [("bu", GB.case_bu, 1), ("bud", GB.case_bu_dense, 1)], 900, 20000,
               proj_lines(("op ", "ev execute_", "ev schedule_", "ev check_task_re", "out ", "abort ", "done", "bad-op")), OB.c04, [],
               proj_name="C04: order of execute_start/end, schedule and scheduling-check events"),
-    "C05": mk("C05", [("hid", GB.case_hidden, 3), ("td", GB.case_td, 1)], 900, 20000,
+    "C05": mk("C05", [("hid", GB.case_hidden, 3), ("ero", GB.case_erosion, 1), ("td", GB.case_td, 1)], 900, 20000,
               proj_lines(("op ", "out ", "abort ", "done", "skipped", "fs ", "st ", "bad-op")),
               lambda c, io: OB.dump_invariants(c, io, "C05") + OB.abort_content(c, io), [],
               proj_name="C05: abort kinds, contents at abort, store dump",
